@@ -43,6 +43,9 @@ type JEv struct {
 	// connected: the first stream this event opens takes this long to open (a peer behind a slow
 	// link that stays connected); every later one opens at once
 	SlowFirstMs int `json:"slow_first_ms,omitempty"`
+	// gossip: every dial the list causes hangs this long (unreachable or unresponsive peers)
+	// before it is answered
+	GateHoldMs int `json:"gate_hold_ms,omitempty"`
 }
 type In struct {
 	Tag    string `json:"tag"`
@@ -323,8 +326,19 @@ func run(in In) (obs Obs) {
 			// quiescence wait below times out and the observation shows what happened
 			s.done.Add(len(ev.Entries))
 			tw.added.Add(len(ev.Entries))
-			_ = handler(context.Background(), p2p.Peer{EthAddress: addr(1000), Type: p2p.PeerTypeBootnode}, &listStream{pl})
+			// (with more entries than dial workers the handler itself waits for dials to finish)
+			hdone := make(chan struct{})
+			go func() {
+				defer close(hdone)
+				_ = handler(context.Background(), p2p.Peer{EthAddress: addr(1000), Type: p2p.PeerTypeBootnode}, &listStream{pl})
+			}()
+			if ev.GateHoldMs > 0 {
+				time.Sleep(time.Duration(ev.GateHoldMs) * time.Millisecond)
+			} else {
+				<-hdone
+			}
 			close(gate)
+			<-hdone
 			// quiescence: every started dial finished and its AddPeers (if any) ran
 			deadline := time.Now().Add(2 * time.Second)
 			for time.Now().Before(deadline) {
@@ -443,6 +457,21 @@ func main() {
 				{T: "connected", P: P(5, 2)}}},
 			In{"slow-first-stream", []JEv{{T: "connected", P: P(2, 2)}, {T: "connected", P: P(3, 2)}, {T: "connected", P: P(4, 1), SlowFirstMs: d}, {T: "connected", P: P(6, 1)}}},
 		)
+	}
+	// a gossiped list longer than the pool of dial workers, every dial hanging for a while (past
+	// every real-time bound the sources mention); another list follows
+	for _, d := range slows {
+		var es []JEntry
+		for a := uint64(30); a < 44; a++ {
+			e := JEntry{Claimed: a, Connect: P(a, 1)}
+			if a%5 == 0 {
+				e.Connect = nil
+			}
+			es = append(es, e)
+		}
+		in := In{"gossip-longer-than-the-worker-pool", []JEv{{T: "connected", P: P(1, 1)}, {T: "gossip", Entries: es, GateHoldMs: d},
+			{T: "gossip", Entries: []JEntry{{Claimed: 50, Connect: P(50, 2)}, {Claimed: 30, Connect: P(30, 1)}}}, {T: "connected", P: P(2, 2)}}}
+		out.EmitGuarded(in, Obs{Panic: true, Steps: []Step{}}, func() (any, any) { return in, run(in) })
 	}
 	for _, in := range fixed {
 		out.Emit(in, run(in))
